@@ -154,6 +154,33 @@ PROPS = {
         "native": "p05",
         "explanation": "proved: default stacks, enclose-then-strip identity, writer line shape and order (shared contracts); bounded: the parse-write-parse round trip and the fixpoint on grammar-derived documents x formats",
     },
+    "C12": {
+        "level": "other",
+        "level_text": "Mixed. Proved (contracts on the real middleware shell, every entry with distinct Field objects): a name middleware replaces only the values of its configured name fields -- keys, the field list, every other field, entry type, key, raw and start line are untouched and the entry itself is returned --, an InvalidNameError from the per-value hook is contained in a fresh MiddlewareErrorBlock holding the entry; MergeCoAuthors joins a list of names with exactly ' and ' (TypeError iff an element is not a str) and returns any other value as it is. Bounded (native, labelled): split_multiple_persons_names itself (conservation, the separator rule, brace/escape/tilde protection, merge-split idempotence) against an independent reference splitter on bounded-exhaustive token sequences -- a character-level state machine over an iterator with StopIteration control flow, outside what pyvc models.",
+        "level_note": STD_NOTE + "; the per-value hook _transform_field_value enters transform_entry through an ASSUMED virtual contract (reads its argument, writes nothing that existed, raises only InvalidNameError / ValueError); str.join as a recursive specification function (A-STR).",
+        "modules": ["schema", "names"],
+        "functions": ["bibtexparser.middlewares.names._NameTransformerMiddleware.transform_entry", "bibtexparser.middlewares.names.MergeCoAuthors._transform_field_value"],
+        "native": "p12",
+        "explanation": "proved: scope and error containment of the name-middleware shell, the ' and ' join of MergeCoAuthors; bounded: the splitting algorithm against a reference splitter",
+    },
+    "C13": {
+        "level": "other",
+        "level_text": "Mixed. Proved (contract on the real _NameTransformerMiddleware.transform_entry, shared by SplitNameParts): an invalid name reported by the parser (InvalidNameError) never escapes as an exception -- the result is a fresh MiddlewareErrorBlock that retains the original entry and the error --, only name fields are touched, the entry's identity (key, type, raw, start line) is untouched. Bounded (native, labelled): parse_single_name_into_parts itself (First/von/Last/Jr assignment, every word once, the invalid-name conditions) against an executable transcription of BibTeX's name algorithm on bounded-exhaustive token sequences -- ~280 lines of character-level state machine, outside what pyvc models.",
+        "level_note": STD_NOTE + "; the per-value hook enters through an ASSUMED virtual contract (see C12).",
+        "modules": ["schema", "names"],
+        "functions": ["bibtexparser.middlewares.names._NameTransformerMiddleware.transform_entry"],
+        "native": "p13",
+        "explanation": "proved: containment of invalid names in middleware error blocks, scope of the middleware; bounded: the name-part algorithm against a BibTeX transcription",
+    },
+    "C14": {
+        "level": "other",
+        "level_text": "Mixed. Proved (contracts on the real middleware shell): scope and containment of all four name middlewares (shared transform_entry), MergeCoAuthors is the ' and ' join. Bounded (native, labelled): the inverse-pair statement itself -- separate + split, then merge parts + merge co-authors, re-separates and re-splits into the same persons and parts, through the function pair and through parse_string / write_string with the middlewares appended / prepended.",
+        "level_note": STD_NOTE + "; the per-value hook enters through an ASSUMED virtual contract (see C12).",
+        "modules": ["schema", "names"],
+        "functions": ["bibtexparser.middlewares.names._NameTransformerMiddleware.transform_entry", "bibtexparser.middlewares.names.MergeCoAuthors._transform_field_value"],
+        "native": "p14",
+        "explanation": "proved: scope/containment of the name middlewares, the ' and ' join; bounded: the inverse-pair round trip",
+    },
     "C10": {
         "level": "other",
         "level_text": "Mixed. Proved for all values and option combinations (contracts on the 7 real functions + 2 lemmas, 95 obligations): exactly one layer is stripped and its kind recorded, reuse restores the original, default enclosing, integer rule, no exception, frames. Bounded (native, labelled): an enclosed value written into an entry re-parses as one field (needs the grammar lemma).",
